@@ -191,7 +191,15 @@ class RealAtomicWrite(AtomicWrite):
         file_handle = self.open_for_write_in_exclusive_and_create_mode(path)
         try:
             try:
-                os.write(file_handle, content)
+                # write(2) may take only a part of the buffer (file size
+                # limit, quota or full disk reached half way): go on with the
+                # rest, the next call tells the reason
+                remaining = content
+                while remaining:
+                    written = os.write(file_handle, remaining)
+                    if written <= 0:
+                        raise IOError("could not write to '%s'" % path)
+                    remaining = remaining[written:]
             finally:
                 os.close(file_handle)
         except (IOError, OSError):
